@@ -125,6 +125,22 @@ def _subsets(rng, p, k=4):
     return [S for S, ok in g.gen_subsets(rng, p, k) if ok and len(S) >= max(1, p["defect"])]
 
 
+def _nonresolving_long(rng, p, tries=12):
+    """lists with AT LEAST `defect` in-range indices that still do not resolve the defect (exact rank test).  Round 6:
+    the driver asks the numeric solver model (`resolvesF`, run at Float on `{p with reg := subset l}`) instead of
+    comparing lengths, so these are decided like any other list.  They are exactly rank deficient (small rational data),
+    far from the refusal thresholds of the three classes — no borderline case is generated."""
+    out = []
+    d, n = p["defect"], p["n"]
+    if d == 0:
+        return out
+    for _ in range(tries):
+        S = sorted(rng.sample(range(1, n + 1), rng.randint(d, n)))
+        if not g.resolves(p, S) and S not in out:
+            out.append(S)
+    return out
+
+
 def gen_full_history(rng, maxlen, want_singular=None, throwing=False, multi=False):
     """one long-lived chol/gso/svd object: queries interleaved with min_x changes and resets
     (multi: also `reset_new k` = reset(A', b') of another problem of the same or another size)"""
@@ -139,6 +155,9 @@ def gen_full_history(rng, maxlen, want_singular=None, throwing=False, multi=Fals
     if throwing and p["defect"] >= 1:
         # lists shorter than the defect never resolve it (any algorithm)
         bad = [sorted(rng.sample(range(1, p["n"] + 1), k)) for k in range(0, p["defect"]) for _ in range(2)]
+        long_bad = _nonresolving_long(rng, p)
+        p["_long_bad"] = len(long_bad)
+        bad += long_bad
     init = rng.choice([None, "all"] + subs)
     ops = [l for q_ in ps[1:] for l in g.problem_lines(q_, None)] + g.problem_lines(p, init)
     order = ps[1:] + [p]                               # identities in definition order; the first one is used by `new`
@@ -219,8 +238,9 @@ def gen_refusal_history(rng, maxlen, alg=None):
     configured list resolves, (c) the refused system again / another one it does not resolve.  After `reset_new` (and
     after `min_x…`) the answers — values or the refusal — must be those of a fresh object; only the queries asked
     while the refusal of the very same system and configuration is pending are outside (model: `after-throw`).
-    The driver decides `resolves` by |list| >= defect, so a configuration is kept for a new system only if it resolves it
-    exactly (then |list| >= defect) or is shorter than its defect; otherwise the caller re-configures."""
+    Round 6: the driver decides `resolves` by running the numeric solver model on the list (`Full.inputOf`), so a
+    configuration is kept for a new system whenever its indices are inside that system's range — also a list of at
+    least `defect` indices that does not resolve it (`then_refused_long`)."""
     while True:
         ps = gen_problems(rng, unit=True, k=3)
         sing = [q for q in ps if q["defect"] > 0]
@@ -240,10 +260,15 @@ def gen_refusal_history(rng, maxlen, alg=None):
     order = [q for q in ps if q is not p] + [p]       # the last defined problem is the one `new` uses
     alg = alg or rng.choice(["gso", "gso", "chol", "svd"])
     bad = sorted(rng.sample(range(1, p["n"] + 1), rng.randint(0, p["defect"] - 1)))
+    longs = _nonresolving_long(rng, p, tries=6)
+    if longs and rng.random() < 0.4:
+        bad = rng.choice(longs)
     ops = [l for q_ in order[:-1] for l in g.problem_lines(q_, None)] + g.problem_lines(p, bad)
     ops += [f"new {alg} solver", f"info {alg}", "state"]
     p["_all"] = order
-    stats = {"refused": 0, "then_regular": 0, "then_singular_resolving": 0, "then_refused_again": 0}
+    stats = {"refused": 0, "then_regular": 0, "then_singular_resolving": 0, "then_refused_again": 0, "refused_long_list": 0}
+    if len(bad) >= p["defect"]:
+        stats["refused_long_list"] += 1
 
     def queries(cur, k):
         out = []
@@ -286,8 +311,7 @@ def gen_refusal_history(rng, maxlen, alg=None):
             k = rng.randrange(len(order))
             cur = order[k]
             qs.append(f"reset_new {k + 1}")
-            keep = cfg == "all" or (all(1 <= i <= cur["n"] for i in cfg) and
-                                    (cur["defect"] == 0 or g.resolves(cur, cfg) or len(cfg) < cur["defect"]))
+            keep = cfg == "all" or all(1 <= i <= cur["n"] for i in cfg)
             if not keep or (outcome(cur, cfg) == "refused" and rng.random() < 0.4):
                 cs = _subsets(rng, cur)
                 if cs and rng.random() < 0.7:
@@ -308,6 +332,8 @@ def gen_refusal_history(rng, maxlen, alg=None):
         pending = oc == "refused"
         if pending:
             stats["refused"] += 1
+            if cfg != "all" and len(cfg) >= cur["defect"]:
+                stats["refused_long_list"] += 1
         qs += queries(cur, rng.randint(1, 3))
     p["_refusal"] = stats
     return p, alg, ops, qs
@@ -413,7 +439,12 @@ def line_ok(impl, model, n, kernel=None):
     if model == "after-throw":
         return not impl.startswith(("throw", "<"))      # outside the quantifier: only "no throw" is checked
     if impl.startswith(("st ", "adj ")) or model.startswith(("st ", "adj ")):
-        return _mask_state(impl, n, kernel) == _mask_state(model, n, kernel)
+        a, b = _mask_state(impl, n, kernel).split(), _mask_state(model, n, kernel).split()
+        # svd after a refused `min_subset_x` (ghost `.broken`): whether V_ was already modified depends on WHICH null
+        # column failed; the model prints `veq *`
+        if "veq" in b and len(a) == len(b) and b[b.index("veq") + 1] == "*" and a[b.index("veq")] == "veq":
+            a[b.index("veq") + 1] = "*"
+        return a == b
     return lines_equal(impl, model, rtol=RTOL, atol=ATOL)
 
 
@@ -464,6 +495,12 @@ def run_stream(ctx, corr, exe, drv, gens, stream, site):
         bad = next((k for k in range(len(lines)) if not line_ok(a[k], b[k], curs[k]["n"], curs[k].get("kernel"))), None)
         compared += len(lines)
         corr.count(stream + "_numeric_skipped_not_modelled", sum(1 for x in b if x == "not-modelled"))
+        # round 6: every echoed `info` line of a solver-entry object passed `FInfo.agrees` (size and defect read from the
+        # real class = those the numeric model computes for the problem the machine runs on); a refused one is printed as
+        # `info-does-not-describe-the-problem …` and is a disagreement below
+        if stream.startswith("fullstate"):
+            corr.count("full_info_agreement_checks", sum(1 for x in b if x.startswith("info ")))
+            corr.count("full_info_refused", sum(1 for x in b if x.startswith("info-does-not-describe")))
         corr.count(stream + "_state_lines", sum(1 for x in b if x.startswith(("st ", "adj "))))
         corr.count(stream + "_numeric_lines", sum(1 for x in b if x.startswith(("vec", "val", "int", "flag"))))
         if bad is not None:
@@ -521,6 +558,7 @@ def run_full_state(ctx, corr, n=None, maxlen=None):
         corr.inconclusive.append("C04 full solvers: fewer than 10 refused solves followed by a full-rank / by a singular resolving system")
     corr.count("full_lines_compared", c1)
     corr.count("full_throw_histories", len(tgens))
+    corr.count("full_throw_long_nonresolving_lists", sum(g_[0].get("_long_bad", 0) for g_ in tgens))
     corr.count("full_throw_lines_compared", c2)
     share = sum(1 for g_ in gens if g_[0]["defect"] > 0) / max(1, len(gens))
     if share < 0.3:
